@@ -28,7 +28,7 @@ ST_OK, ST_ERROR, ST_NACK = 0, 1, 2
 class Req(object):
   __slots__ = ('server', 'conn', 'seq', 'method', 'args', 'call_id', 'at', 'nonce',
                'tag', 'contexts', 'spec', 'reply_kind', 'raw', 'dst', 'dtab', 'value',
-               'answered_at', 'net_seq')
+               'answered_at', 'net_seq', 'delivered_at')
 
   def __init__(self):
     self.tag = None
@@ -37,6 +37,7 @@ class Req(object):
     self.reply_kind = None
     self.value = None
     self.answered_at = None
+    self.delivered_at = None
     self.dst = None
     self.dtab = None
 
@@ -215,7 +216,7 @@ class ThriftServer(BaseServer):
     if 'deliver_at' in spec:
       conn.server_send_at(frame, spec['deliver_at'])
     else:
-      conn.server_send(frame, delay)
+      conn.server_send(frame, delay, req=r)
 
 
 # -- mux codec (independent of scales) --------------------------------------
@@ -404,7 +405,7 @@ class MuxServer(BaseServer):
     if 'deliver_at' in spec:
       conn.server_send_at(out, spec['deliver_at'])
     else:
-      conn.server_send(out, 0.0)
+      conn.server_send(out, 0.0, req=r)
     extra = spec.get('adversarial')
     if extra == 'alias':
       # a never-issued tag that differs from an outstanding one only in a high bit
